@@ -178,6 +178,22 @@ def discrete_case(rep, drv, rng, th):
 			net = serial_system(N, node_order_in_system=up_first, echelon_holding_cost={lab[j]: h[j] for j in range(N)}, local_holding_cost=loc,
 								stockout_cost={lab[j]: (p if j == 0 else 0) for j in range(N)}, shipment_lead_time={lab[j]: Ls[j] for j in range(N)},
 								demand_source={lab[j]: (ds if j == 0 else None) for j in range(N)}, policy_type='BS', base_stock_level=0)
+			if rng.random() < .5:
+				# the same network built by hand, nodes and edges added in an arbitrary order (the order of network.nodes carries no meaning)
+				from stockpyl.supply_chain_network import SupplyChainNetwork
+				from stockpyl.supply_chain_node import SupplyChainNode
+				from stockpyl.policy import Policy
+				net = SupplyChainNetwork()
+				js = list(range(N)); rng.shuffle(js)
+				for j in js:
+					nd_ = SupplyChainNode(lab[j], echelon_holding_cost=h[j], local_holding_cost=loc[lab[j]], stockout_cost=(p if j == 0 else 0),
+										  shipment_lead_time=Ls[j], demand_source=(ds if j == 0 else None), supply_type=('U' if j == N - 1 else None))
+					nd_.inventory_policy = Policy(type='BS', base_stock_level=0, node=nd_)
+					net.add_node(nd_)
+				es = [(lab[j + 1], lab[j]) for j in range(N - 1)]; rng.shuffle(es)
+				for a_, b_ in es:
+					net.add_edge(a_, b_)
+				rep.count('ssm:network-form-hand-built:' + ('upstream-first' if js == sorted(js, reverse=True) else 'other-order'))
 			S3, C3 = ssm_serial.optimize_base_stock_levels(network=net)
 			ec3 = ssm_serial.expected_cost({lab[j]: pyS[j] for j in range(N)}, network=net)
 			ecp = ssm_serial.expected_cost({j + 1: pyS[j] for j in range(N)}, **kw)
